@@ -37,7 +37,7 @@ def generate(ctx: Ctx, seed_offset=0):
     # families with a forced prologue: an in-memory store filled to the capacity of its cache (C07), an identified
     # file opened for appending followed by every sequence of look-ups / identified additions / syncs (C08)
     fam_mem, fam_lookup = [], []
-    if ctx.pid == 'C07':
+    if ctx.pid in ('C07', 'C10'):
         fam_mem = tlc.check(ctx, 'store/StoreGen', 'store/Gen_StoreMem.cfg', sub=None if ctx.quick else {'D = 3': 'D = 4'})['emitted']
     if ctx.pid == 'C08':
         fam_lookup = tlc.check(ctx, 'store/StoreGen', 'store/Gen_StoreLookup.cfg', sub=None if ctx.quick else {'D = 4': 'D = 5'})['emitted']
